@@ -1213,6 +1213,7 @@ func (x *Exec) invoke(st *State, fr *Frame, ci *callInfo, recv Val, recvT types.
 			for i, a := range args {
 				if i < sigp.Len() {
 					c.names["arg_"+sigp.At(i).Name()] = cv{V: a, T: sigp.At(i).Type()}
+					c.names[fmt.Sprintf("arg_%d", i)] = cv{V: a, T: sigp.At(i).Type()} // unnamed interface parameters
 				}
 			}
 			siteNo := x.invokeSiteNumber(m.Name(), ci.pos)
